@@ -1,0 +1,173 @@
+//! C34: revoked keys never verify.
+//!
+//! `Hko` holds one live key object exactly as the server does: a private `KeyProviders` cell
+//! with the internal provider installed, objects created by `get_or_create_in_default` (what
+//! the key object plugin calls) and re-loaded by `KeyProvidersWriteTransaction::load_key_object`
+//! (what `reload_key_material` calls) from an entry carrying the stored `KeyInternalData`.
+//! Every method forwards to one `KeyObjectT` / `KeyProviders` function; the key object types
+//! live in a crate-private module, hence the wrapper. Nothing here changes server code.
+
+use crate::entry::Eattrs;
+use crate::prelude::*;
+use crate::repl::entry::EntryChangeState;
+use crate::server::keys::{KeyObject, KeyProvider, KeyProviders};
+use crate::valueset::{ValueSetIname, ValueSetIutf8, ValueSetRefer};
+use compact_jwt::compact::JweCompact;
+use compact_jwt::jwe::JweBuilder;
+use compact_jwt::jws::JwsBuilder;
+use compact_jwt::traits::JwsVerifiable;
+use compact_jwt::JwsCompact;
+use std::collections::BTreeSet;
+use std::str::FromStr;
+
+/// Key usages in the numbering of `verif_hooks::c11::HookKey`:
+/// 0 JwsEs256, 1 JwsHs256, 2 JwsRs256, 3 JweA128GCM, 4 HkdfS256
+pub struct Hko {
+    providers: KeyProviders,
+    uuid: Uuid,
+    obj: KeyObject,
+}
+
+fn zero_cid() -> Cid {
+    Cid {
+        ts: Duration::from_secs(0),
+        s_uuid: Uuid::from_u128(0),
+    }
+}
+
+fn sealed(uuid: Uuid, attrs: Eattrs) -> EntrySealedCommitted {
+    let ecstate = EntryChangeState::new_without_schema(&zero_cid(), &attrs);
+    Entry::verif_c12_build(uuid, ecstate, attrs, 1)
+}
+
+impl Hko {
+    /// A fresh, empty key object in the internal provider.
+    pub fn new(uuid: Uuid) -> Result<Self, OperationError> {
+        let mut attrs = Eattrs::default();
+        let class = ValueSetIutf8::from_iter([
+            EntryClass::Object.into(),
+            EntryClass::KeyProvider.into(),
+            EntryClass::KeyProviderInternal.into(),
+        ])
+        .ok_or(OperationError::InvalidValueState)?;
+        attrs.insert(Attribute::Class, class as ValueSet);
+        attrs.insert(
+            Attribute::Name,
+            ValueSetIname::new("key_provider_internal") as ValueSet,
+        );
+        let pentry = sealed(UUID_KEY_PROVIDER_INTERNAL, attrs);
+        let provider = KeyProvider::try_from(&pentry)?;
+
+        let providers = KeyProviders::default();
+        let mut wr = providers.write();
+        wr.update_providers(vec![provider])?;
+        let obj = wr.get_or_create_in_default(uuid)?;
+        wr.commit()?;
+        Ok(Hko {
+            providers,
+            uuid,
+            obj,
+        })
+    }
+
+    /// `KeyObjectT::*_assert` of one usage.
+    pub fn assert(&mut self, usage: u8, t: Duration, cid: &Cid) -> Result<(), OperationError> {
+        match usage {
+            0 => self.obj.jws_es256_assert(t, cid),
+            1 => self.obj.jws_hs256_assert(t, cid),
+            2 => self.obj.jws_rs256_assert(t, cid),
+            3 => self.obj.jwe_a128gcm_assert(t, cid),
+            _ => self.obj.hkdf_s256_assert(t, cid),
+        }
+    }
+
+    pub fn rotate(&mut self, t: Duration, cid: &Cid) -> Result<(), OperationError> {
+        self.obj.rotate_keys(t, cid)
+    }
+
+    /// `revoke_keys` on a duplicate that replaces the object only on success (the plugin
+    /// stages its changes on a duplicate and drops it when the operation fails).
+    pub fn revoke(&mut self, kids: &BTreeSet<String>, cid: &Cid) -> Result<(), OperationError> {
+        let mut staged = self.obj.duplicate();
+        staged.revoke_keys(kids, cid)?;
+        self.obj = staged;
+        Ok(())
+    }
+
+    /// Sign (usages 0,1,2) or encrypt (usage 3) `payload` at time `t`; returns the compact
+    /// form and the key id in its header.
+    pub fn sign(
+        &self,
+        usage: u8,
+        payload: &[u8],
+        t: Duration,
+    ) -> Result<(String, Option<String>), OperationError> {
+        if usage == 3 {
+            let jwe = JweBuilder::from(payload.to_vec()).build();
+            let c = self.obj.jwe_a128gcm_encrypt(&jwe, t)?;
+            return Ok((c.to_string(), c.kid().map(str::to_string)));
+        }
+        let jws = JwsBuilder::from(payload.to_vec()).build();
+        let c = match usage {
+            0 => self.obj.jws_es256_sign(&jws, t),
+            1 => self.obj.jws_hs256_sign(&jws, t),
+            _ => self.obj.jws_rs256_sign(&jws, t),
+        }?;
+        Ok((c.to_string(), c.kid().map(str::to_string)))
+    }
+
+    /// `jws_verify` (`jwe == false`) or `jwe_decrypt` of a compact token; the released payload.
+    /// `Err(None)`: the text is not a compact token at all.
+    pub fn verify(&self, jwe: bool, token: &str) -> Result<Vec<u8>, Option<OperationError>> {
+        if jwe {
+            let c = JweCompact::from_str(token).map_err(|_| None)?;
+            self.obj
+                .jwe_decrypt(&c)
+                .map(|j| j.payload().to_vec())
+                .map_err(Some)
+        } else {
+            let c = JwsCompact::from_str(token).map_err(|_| None)?;
+            self.obj
+                .jws_verify(&c)
+                .map(|j| j.payload().to_vec())
+                .map_err(Some)
+        }
+    }
+
+    /// The `KeyInternalData` valueset of `as_valuesets`.
+    pub fn key_vs(&self) -> Result<ValueSet, OperationError> {
+        self.obj
+            .as_valuesets()?
+            .into_iter()
+            .find(|(a, _)| a == &Attribute::KeyInternalData)
+            .map(|(_, vs)| vs)
+            .ok_or(OperationError::InvalidValueState)
+    }
+
+    /// Replace the live object by what `load_key_object` builds from an entry storing `vs`
+    /// (`None`: an entry without `KeyInternalData`).
+    pub fn load(&mut self, vs: Option<&ValueSet>) -> Result<(), OperationError> {
+        let mut attrs = Eattrs::default();
+        let class = ValueSetIutf8::from_iter([
+            EntryClass::Object.into(),
+            EntryClass::KeyObject.into(),
+            EntryClass::KeyObjectInternal.into(),
+        ])
+        .ok_or(OperationError::InvalidValueState)?;
+        attrs.insert(Attribute::Class, class as ValueSet);
+        attrs.insert(
+            Attribute::KeyProvider,
+            ValueSetRefer::new(UUID_KEY_PROVIDER_INTERNAL) as ValueSet,
+        );
+        if let Some(vs) = vs {
+            attrs.insert(Attribute::KeyInternalData, vs.clone());
+        }
+        let entry = sealed(self.uuid, attrs);
+        let mut wr = self.providers.write();
+        wr.load_key_object(&entry)?;
+        let obj = wr.get_or_create_in_default(self.uuid)?;
+        wr.commit()?;
+        self.obj = obj;
+        Ok(())
+    }
+}
